@@ -2,7 +2,8 @@
 From Coq Require Import Permutation.
 From Boltons Require Import Lib.Prelude Model.C17_Model Spec.C17_Spec Check.C17_Check
   Proofs.C17_Dict Proofs.C17_OTO Proofs.C17_M2M Proofs.C17_FD Proofs.C17_RefineOTO
-  Proofs.C17_RefineM2M Proofs.C17_RefineFD Proofs.C17_Agree Proofs.C17_Table Proofs.C17_SpecSound Gen.C17_Gen.
+  Proofs.C17_RefineM2M Proofs.C17_RefineFD Proofs.C17_Agree Proofs.C17_Table Proofs.C17_SpecSound Gen.C17_Gen
+  Lib.C17_Py Gen.C17_Src Proofs.C17_SrcEq Proofs.C17_SrcReach.
 
 (* OneToOne: after ANY history of instance creation (pairs, .unique, copies),
    []=, del, pop, popitem, clear, setdefault, update, |=, update-from-instance,
@@ -199,3 +200,22 @@ Theorem C17_oto_setitem_refuses_unhashable : forall o k v, unhashable k || unhas
   oto_step o (OSet k v) = (o, Raise TypeError).
 Proof. exact setitem_refuses_unhashable. Qed.
 Print Assumptions C17_oto_setitem_refuses_unhashable.
+
+(* (T), source level: the bodies of OneToOne.__delitem__, __setitem__, pop, popitem,
+   clear and setdefault, transcribed into Gallina from the CURRENT source on this
+   run (Gen/C17_Src.v: dict primitives on self / self.inv in the exception monad,
+   every primitive raising what python raises), ARE the model's operations on
+   every instance reachable by any history, through either side.  In particular
+   the KeyErrors hidden in the paired writes never fire, and results and final
+   states coincide.  A change of one of these methods changes the generated
+   text; this theorem (or the translation) then no longer goes through. *)
+Theorem C17_src_methods_are_the_model : forall hops o s, In o (oto_run hops) ->
+  let x := oto_side s o in
+  (forall k, src_delitem x k = lift_step x (ODel k)) /\
+  (forall k v, src_setitem x k v = lift_step x (OSet k v)) /\
+  (forall k d, src_pop x k d = lift_step x (OPop k d)) /\
+  src_popitem x = lift_step x OPopitem /\
+  src_clear x = lift_step x OClear /\
+  (forall k d, src_setdefault x k d = lift_step x (OSetdefault k d)).
+Proof. exact src_methods_eq_model_on_reachable. Qed.
+Print Assumptions C17_src_methods_are_the_model.
